@@ -83,6 +83,10 @@ def pytree_cases(quick):
         # a structured PyTree as the leaf type of a structure-less one (S is looked at while flattening)
         (["pytree", ["int"], "S"], lambda ok: ["tuple", [["lit", 1], ["lit", 2]]] if ok else ["tuple", [["lit", 1], ["lit", "x"]]], 1),
         (["arr", "*#w c"], lambda ok: A((1, 4, 6)) if ok else A((5, 6)), 1),
+        # unions of '?' axes: the first alternative binds its per-leaf '?a' and then fails on the
+        # fixed axis; the second alternative passes (so the tree passes while an alternative failed)
+        (["union", [["arr", "?a 3"], ["arr", "?b 4"]]], lambda ok: A((5, 4)) if ok else A((5, 5)), 1),
+        (["opt", ["union", [["arr", "?a ?b 3"], ["arr", "?b ?a 4"]]]], lambda ok: A((2, 3, 4)) if ok else A((2, 3, 5)), 1),
         # '*#v' alone: an early leaf WIDENS an existing broadcastable binding (no new name appears), a later leaf fails
         (["arr", "*#v"], lambda ok: A((3,)) if ok else A((4,)), 1),
         (["arr", "*#v"], lambda ok: A((2, 3)) if ok else A((3, 3)), 1),
